@@ -201,7 +201,32 @@ def fam_style():
     alpha = av("style", STYLES) + av("class", ["k"])
     return dict(name="style", recipes=recipes, tokens=[], attrs={e: alpha for e in ["span", "p", "custom-x", "div"]})
 
-FAMS = dict(loop=fam_loop, loopq=fam_loopq, link=fam_link, url=fam_url, forced=fam_forced, allow=fam_allow, style=fam_style)
+def fam_conf():
+    """C07 / C20: documents mostly inside the policy's own vocabulary (plus a few tokens outside it)."""
+    lower = "re:^[a-z]+$"
+    base = [call("NewPolicy"), call("AllowElements", names=["b", "p"]), AA(["href", "rel"], ["a"]), AA(["src", "alt"], ["img"]),
+            AA(["class"], [], match=lower), AA(["class"], ["p"], match="re:^[0-9]+$"),
+            AA(["title"], pat="^custom-", noattrs=True), AA(["cite"], ["q"])]
+    recipes = [
+        base,
+        base + [call("AllowStandardURLs")],
+        base + [call("AllowURLSchemes", schemes=["http"]), call("RequireNoReferrerOnFullyQualifiedLinks", b=True),
+                call("AddTargetBlankToFullyQualifiedLinks", b=True), call("RequireCrossOriginAnonymous", b=True)],
+        base + [call("AllowComments"), call("AddSpaceWhenStrippingTag", b=True), call("AllowRelativeURLs", b=True)],
+        base + [AA(["sandbox", "src"], ["iframe"]), call("RequireSandboxOnIFrame", vals=["allow-forms"]), call("AllowDataAttributes")],
+        [call("UGCPolicy")],
+    ]
+    toks = [tok("start", "b"), tok("end", "b"), tok("start", "p", (("class", "123"),)), tok("start", "p", (("class", "abc"),)), tok("end", "p"),
+            tok("start", "a", (("href", "http://e.com/x"),)), tok("start", "a", (("href", "/rel"), ("rel", "tag"))),
+            tok("start", "a", (("href", "javascript:x"),)), tok("start", "a"), tok("end", "a"),
+            tok("start", "img", (("src", "/i.png"), ("alt", "x y"))), tok("start", "img", (("src", "HTTP://E.com/%7e"),)),
+            tok("start", "custom-x"), tok("start", "custom-x", (("title", "t"), ("class", "k"))), tok("end", "custom-x"),
+            tok("start", "q", (("cite", "http://e.com/x"),)), tok("end", "q"),
+            tok("start", "blink"), tok("self", "b"), tok("start", "b", (("data-x", "1"),)),
+            tok("text", d="txt"), tok("comment", d="cmt")]
+    return dict(name="conf", recipes=recipes, tokens=toks)
+
+FAMS = dict(conf=fam_conf, loop=fam_loop, loopq=fam_loopq, link=fam_link, url=fam_url, forced=fam_forced, allow=fam_allow, style=fam_style)
 
 if __name__ == "__main__":
     here = os.path.dirname(os.path.abspath(__file__))
